@@ -512,6 +512,23 @@ def run_case(kind, p):
                         if r.selector[k_]:
                             msgs.append(f"theorem instance (noisy_selection): the half-cell outlier {k_} is guaranteed to be rejected "
                                         f"and is selected")
+            # the optional arrays: correlation heights given, elevations left out (every peak then counts with weight 1 -- heights
+            # are not elevations), and positions only
+            if p.get("optional_args", True):
+                m_ = grm.Matcher(tolerance=p["tol"], min_weight=p["min_weight"], min_match=p["min_match"])
+                pv_ = np.linspace(0.01, 5.0, len(pts))[::-1].copy()
+                kw_ = dict(zero=np.asarray(p["start_zero"], dtype=float).copy(), a=np.asarray(p["start_a"], dtype=float).copy(),
+                           b=np.asarray(p["start_b"], dtype=float).copy())
+                ones_ = m_.fastmatch(centers=pts.copy(), refineds=pts.copy(), peak_values=pv_.copy(),
+                                     peak_elevations=np.ones(len(pts)), **kw_)
+                for what, rr in (("heights given, elevations left out", m_.fastmatch(centers=pts.copy(), refineds=pts.copy(), peak_values=pv_.copy(), **kw_)),
+                                 ("positions only", m_.fastmatch(centers=pts.copy(), **kw_))):
+                    if is_invalid(rr) != is_invalid(ones_) or (not is_invalid(rr) and (
+                            not np.array_equal(rr.selector, ones_.selector)
+                            or np.abs(np.concatenate([rr.zero, rr.a, rr.b]) - np.concatenate([ones_.zero, ones_.a, ones_.b])).max() > 1e-9)):
+                        msgs.append(f"fastmatch with {what} differs from the match with unit elevations "
+                                    f"(selected {None if is_invalid(rr) else int(rr.selector.sum())} vs "
+                                    f"{None if is_invalid(ones_) else int(ones_.selector.sum())})")
             if not is_invalid(r):
                 if len(r.indices) != int(r.selector.sum()):
                     msgs.append("len(indices) != number of selected peaks")
